@@ -44,7 +44,7 @@ impl StateMachine<'_> {
             | HunkMinus(Combined(merge_parents, InMergeConflict::No), _)
             | HunkZero(Combined(merge_parents, InMergeConflict::No), _)
             | HunkPlus(Combined(merge_parents, InMergeConflict::No), _) => {
-                handled_line = self.enter_merge_conflict(&merge_parents)
+                handled_line = self.enter_merge_conflict(&merge_parents)?
             }
             MergeConflict(merge_parents, Ours) => {
                 handled_line = self.enter_ancestral(&merge_parents)
@@ -85,17 +85,19 @@ impl StateMachine<'_> {
         Ok(())
     }
 
-    fn enter_merge_conflict(&mut self, merge_parents: &MergeParents) -> bool {
+    fn enter_merge_conflict(&mut self, merge_parents: &MergeParents) -> std::io::Result<bool> {
         use State::*;
         if let Some(commit) = parse_merge_marker(&self.line, "++<<<<<<<") {
             // The conflict region is written directly when it ends: the lines of the hunk
-            // which precede it must be rendered before that, not after it.
+            // which precede it must be rendered before that, not after it - and written now,
+            // not when the region (which may be long) ends.
             self.painter.paint_buffered_minus_and_plus_lines();
+            self.painter.emit()?;
             self.state = MergeConflict(merge_parents.clone(), Ours);
             self.painter.merge_conflict_commit_names[Ours] = Some(commit.to_string());
-            true
+            Ok(true)
         } else {
-            false
+            Ok(false)
         }
     }
 
